@@ -26,7 +26,8 @@ CLAIM = ('Every attribute of the objects that survive a parse (HTMLParser, its 2
          'initialised at every switch into that phase, or is a memo of class-level tables. Module-level '
          'containers written at run time are memos of their keys. So no aborted or finished parse can leave '
          'state that a later parse reads. No class-level mutable container is mutated in place through self '
-         'without a per-instance rebind in __init__.')
+         'without a per-instance rebind in __init__. A handler slot that survives reset() holds only handlers '
+         'that restore the default and re-validate the current node; factory caches key on keyword values.')
 NOT_DECIDED = "thread interleavings beyond the shared-state inventory; state kept inside third-party objects."
 MODULES = ["html5parser.py", "treebuilders/base.py", "treebuilders/etree.py", "treebuilders/dom.py", "_tokenizer.py",
            "_inputstream.py", "_utils.py", "_trie/py.py", "_trie/_base.py", "serializer.py", "treebuilders/__init__.py",
@@ -744,6 +745,7 @@ def thorough(ctx):
 def mutants():
     from ..selftest import TextMutant as T
     return [
+        T("dropnewline-unchecked", "html5parser.py", "            self.tree.openElements[-1].name in (\"pre\", \"listing\", \"textarea\") and\n", "", "R12.1"),
         T("tokenqueue-class-level", "_tokenizer.py", "    def __init__(self, stream, parser=None, **kwargs):\n", "    tokenQueue = deque([])\n\n    def __init__(self, stream, parser=None, **kwargs):\n", "R12.4"),
         T("drop-reset-frameset", "html5parser.py", "        self.beforeRCDataPhase = None\n\n        self.framesetOK = True\n",
           "        self.beforeRCDataPhase = None\n", "R12.1"),
